@@ -165,10 +165,10 @@ class SEvent:
         return self.flag
 
 class SQueue:
-    def __init__(self, name='q'):
-        self.d = collections.deque(); self.qname = name; self.S = S
+    def __init__(self, maxsize=0, name='q'):
+        self.d = collections.deque(); self.qname = name; self.S = S; self.maxsize = maxsize
     def put(self, x, block=True, timeout=None):
-        self.S.point(self.qname + '.put')
+        self.S.point(self.qname + '.put', enabled=(None if self.maxsize <= 0 else (lambda: len(self.d) < self.maxsize)))
         self.d.append(x)
         self.S.effect(self.qname + '.put', x)
     def empty(self):
